@@ -227,6 +227,20 @@ CLAIMS["C18"] = dict(
     technique="contract-based deductive verification of the wrapper logic over models of the geometry library (heap identity / provenance obligations); geometry only bounded",
     note=TRUST + " GEOS and matplotlib.path are assumed (A7); level claimed is 'other'.")
 
+CLAIMS["C07"] = dict(
+    category="other",
+    text="The triangulation comes from Triangle and the boundary-cell areas from qhull: tiling, orientation, Euler characteristic, boundary sites on the "
+         "outlines, cell areas = clipped Voronoi regions and the terminal-length tolerance CANNOT be decided by contracts on Python code; they are checked only "
+         "on a bounded family of generated geometries (real mesher; 6 geometries in the quick tier, 16 in the thorough tier, including devices far from the origin "
+         "with holes; cell areas against an independent half-plane clipping). Proved for the generic triangle / edge on the real kernels: the Voronoi vertex "
+         "returned by generate_voronoi_vertices is equidistant from the three vertices and lies on all three perpendicular bisectors whenever the triangle is "
+         "non-degenerate, its determinant is four times the signed area; triangle_areas is the signed area (positive iff counter-clockwise); EdgeMesh.from_mesh "
+         "gives direction = r_j - r_i, centre = midpoint, length = Euclidean norm, boundary edges = flagged edges; lemma: circumcentre-to-circumcentre and "
+         "circumcentre-to-midpoint segments are perpendicular to the edge (dual-length rule).",
+    design_ref="DESIGN.md section 4 C07",
+    technique="contract-based deductive verification of the Python geometry kernels (generic triangle/edge, ring normalisation + z3); the mesher itself only by a bounded native run",
+    note=TRUST + " Triangle, qhull, shapely are unverified C/C++ (A7); level claimed is 'other'.")
+
 NA = {}
 
 checks = []
